@@ -1025,9 +1025,10 @@ class ComputeGraph(MultiDiGraph):
             lambda e: isinstance(e, Derivative) and e.expr.func.__name__ == 'identity',
             lambda e: sp.Integer(1)
         )
+        # backends may rename the function (the Fortran backend calls it `fsigmoid_<n>`): keep the backend's own name
         expr = expr.replace(
-            lambda e: isinstance(e, Derivative) and e.expr.func.__name__ == 'sigmoid',
-            lambda e: (lambda s: s * (1 - s))(Function('sigmoid')(e.expr.args[0]))
+            lambda e: isinstance(e, Derivative) and 'sigmoid' in e.expr.func.__name__,
+            lambda e: (lambda s: s * (1 - s))(e.expr.func(e.expr.args[0]))
         )
         # the backend renames `absv` to its call name (`abs`) before the symbolic expression is rebuilt
         expr = expr.replace(
